@@ -20,7 +20,7 @@ META = {
             "shapes: (1) nothing but the two documented ValueConstraintViolatedError cases escapes; (2) tiling "
             "oracle over the emitted events; (3) value-only problems: events equal the lenient reference "
             "interpretation with one warning directly after each offending event.",
-    "bounds": {"quick": "region-bearing structure types (seed-rotated) lengths m..min(m+3,8); shapes of 10 seed-rotated command codes + core",
+    "bounds": {"quick": "24 seed-rotated region-bearing structure types lengths m..min(m+3,8); synthetic nested types 0..8; shapes of 5 seed-rotated command codes + core: every size field, the tag, and the first three constrained leaves symbolic",
                "thorough": "all structure types lengths 0..min(m+4,12); all command codes; pairs of size fields"},
     "outside": "inputs neither within N nor an instance of an explored shape",
     "wall_budget_s": {"quick": 270, "thorough": 840},
